@@ -170,6 +170,14 @@ def body_family(kind, k, p):
         return body(big, [kind, kc, pc])
 
 
+def body_star(k):
+    return body(star(k), ["star", k])
+
+
+def body_concat(a, b):
+    return body(concat(list(a), list(b)), ["concat", list(a), list(b)])
+
+
 def replay(rec):
     import harness.e1_common as ec
     saved = ec.known_keys
@@ -191,11 +199,11 @@ def run(rep, tier):
     # families: weights (stem lengths) matter for the objective; stem indices beyond what small N reaches
     if tier == "quick":
         spec = [("inflated", 4, 2, 3), ("inflated", 5, 2, 3), ("inflated", 6, 2, 3), ("inflated", 6, 3, 3), ("inflated", 8, 4, 2),
-                ("padded", 4, 12), ("padded", 5, 12), ("padded", 6, 12), ("interleaved", 4), ("interleaved", 5), ("interleaved", 6)]
+                ("padded", 4, 12), ("padded", 5, 12), ("padded", 6, 12), ("interleaved", 4), ("interleaved", 5), ("interleaved", 6), ("star", 8), ("concat", 6, 5), ("chain4", 5)]
     else:
         spec = [("inflated", n, k, 3) for n in range(4, 8) for k in range(2, n // 2 + 1)] + \
                [("inflated", 8, 2, 3), ("inflated", 8, 3, 3), ("inflated", 8, 4, 3), ("inflated", 9, 4, 2), ("inflated", 10, 5, 2)] + \
-               [("padded", n, 12) for n in (4, 5, 6)] + [("interleaved", n) for n in (4, 5, 6)]
+               [("padded", n, 12) for n in (4, 5, 6)] + [("interleaved", n) for n in (4, 5, 6)] + [("star", 8), ("concat", 6, 6), ("chain4", 7)]
     parts += pd.run_families(rep, "harness.c02", spec)
     e1.collect(rep, parts, "harness.c02")
     agg = {}
